@@ -27,7 +27,9 @@ GInit == Init /\ hist = <<>> /\ done = FALSE
 
 Rec16 == [a |-> last'.a, k |-> last'.k, x |-> last'.x, y |-> last'.y,
           exp |-> SummaryJ(SummaryOf(closed', bal'))]
-Rec17 == [x |-> last'.x, exp |-> DataSetJ(DataSet(vals'))]
+\* neg: the statistics of the losing returns so far (PnLReturns.losses); persist: the harness stores and
+\* restores the running summary after this update (action Persist - a stutter, no expectation changes)
+Rec17(pf) == [x |-> last'.x, persist |-> pf, exp |-> DataSetJ(DataSet(vals')), neg |-> DataSetJ(DataSet(NegOf(vals')))]
 
 \* ---- C16
 G16Step == /\ ~done /\ NClosed < MaxClosed
@@ -37,11 +39,12 @@ G16Step == /\ ~done /\ NClosed < MaxClosed
 \* (draws are bound through singleton sets: a RandomElement inside a LET / argument position may be
 \*  re-drawn at every reference - notes/HOWTO.md "TLC pitfalls")
 G16StepR == /\ ~done /\ Len(hist) < MaxClosed
-            /\ \E r \in {RandomElement(1..10)}, i \in {RandomElement(Instr)}, p \in {RandomElement(PnLs)},
+            /\ \E r \in {RandomElement(1..11)}, i \in {RandomElement(Instr)}, p \in {RandomElement(PnLs)},
                   c \in {RandomElement(Costs)}, a \in {RandomElement(Asset)}, b \in {RandomElement(Bals)} :
                  IF r <= 6 THEN AddClosed(i, p, c)
                  ELSE IF r <= 8 THEN AddBalance(a, b)
-                 ELSE Generate
+                 ELSE IF r <= 10 THEN Generate
+                 ELSE Persist
             /\ hist' = Append(hist, Rec16)
             /\ UNCHANGED done
 G16Finish  == /\ ~done /\ NClosed = MaxClosed /\ done' = TRUE
@@ -54,11 +57,11 @@ G16R == GInit /\ [][G16StepR \/ G16FinishR]_gvars
 \* ---- C17
 G17Step == /\ ~done /\ Len(vals) < MaxVals
            /\ \E x \in Vals : AddValue(x)
-           /\ hist' = Append(hist, Rec17)
+           /\ hist' = Append(hist, Rec17(FALSE))
            /\ UNCHANGED done
 G17StepR == /\ ~done /\ Len(vals) < MaxVals
-            /\ \E x \in {RandomElement(Vals)} : AddValue(x)
-            /\ hist' = Append(hist, Rec17)
+            /\ \E x \in {RandomElement(Vals)}, pf \in {RandomElement(BOOLEAN)} :
+                  AddValue(x) /\ hist' = Append(hist, Rec17(pf))
             /\ UNCHANGED done
 G17Finish == /\ ~done /\ Len(vals) = MaxVals /\ done' = TRUE
              /\ UNCHANGED <<closed, acc, bal, out, vals, wf, last, hist>>
